@@ -1,0 +1,35 @@
+//! Schedule points for the deterministic simulator under /verif.
+//! Compiled only with `--cfg jsonpath_rust_verif`; without the flag neither this
+//! module nor any of its call sites exist.
+use std::sync::atomic::{AtomicPtr, Ordering};
+
+pub const PARSE_ENTER: u32 = 0;
+pub const PARSE_TREE: u32 = 1;
+pub const EVAL_ENTER: u32 = 2;
+pub const SEGMENT: u32 = 3;
+pub const SELECTOR: u32 = 4;
+pub const DESCEND: u32 = 5;
+pub const FILTER_CHILD: u32 = 6;
+pub const CMP_MID: u32 = 7;
+pub const REGEX_PRE: u32 = 8;
+pub const REGEX_POST: u32 = 9;
+pub const CUSTOM_PRE: u32 = 10;
+pub const REFERENCE: u32 = 11;
+pub const SITES: u32 = 12;
+
+static HOOK: AtomicPtr<()> = AtomicPtr::new(std::ptr::null_mut());
+
+/// Installs the function called at every schedule point (process-wide).
+pub fn set_hook(f: fn(u32)) {
+    HOOK.store(f as *mut (), Ordering::Relaxed);
+}
+
+/// A schedule point. Relaxed load: the hook must not add a happens-before edge.
+#[inline]
+pub fn point(site: u32) {
+    let p = HOOK.load(Ordering::Relaxed);
+    if !p.is_null() {
+        let f: fn(u32) = unsafe { std::mem::transmute(p) };
+        f(site);
+    }
+}
